@@ -552,6 +552,19 @@ def classify(c, o):
     return keys, nontrivial
 
 
+
+def eval_case_safe(c):
+    """eval_case, with an exception escaping from the code under test turned into a violation of this very case"""
+    try:
+        return eval_case(c)
+    except Exception as e:   # noqa: BLE001 - whatever the mutated code raises
+        import traceback
+        tb = traceback.format_exc().splitlines()[-6:]
+        v = [dict(what=f"evaluating the case raised {type(e).__name__}: {str(e)[:200]} (an exception the property does not allow escaped from the code under test)",
+                  expected="a decoding under the first candidate that decodes cleanly, or the next candidate", observed=" | ".join(tb)[:800], stream="exception")]
+        return v, [], [], [], {"how": "exception"}
+
+
 def work(job):
     """One chunk: generate, run, ask the model. Runs in a worker process."""
     seed, stream, chunk, n = job
@@ -562,7 +575,7 @@ def work(job):
     ncases = 0
     for i in range(n):
         c = gen_case(rng, stream)
-        v, lines, expect, tags, o = eval_case(c)
+        v, lines, expect, tags, o = eval_case_safe(c)
         ncases += 1
         keys, nt = classify(c, o)
         for k in keys:
@@ -646,7 +659,7 @@ def work_fixed(job):
     dist, viols, dis, nontriv = Counter(), [], [], []
     all_lines, all_expect, all_meta = [], [], []
     for c in cases:
-        v, lines, expect, tags, o = eval_case(c)
+        v, lines, expect, tags, o = eval_case_safe(c)
         dist[f"stream:{name}"] += 1
         dist["how:" + o["how"]] += 1
         nontriv.append(hashlib.sha256(json.dumps(c, sort_keys=True).encode()).hexdigest()[:12])
